@@ -4,7 +4,7 @@
 
 package tswitch
 
-//@ property C15
+//@ property C15 C16
 
 //@ pure func validswitch(tf *switchTransform, r *base.LogRecord) bool :=
 //@     tf != nil && forall c int :: 0 <= c && c < len(tf.cases) ==> bmatch.validmatcher(tf.cases[c].matcher, r)
@@ -24,3 +24,20 @@ package tswitch
 //@              && (result == base.PASS ==> k == old(len(tf.cases[c].then)))
 //@   loop 1: invariant -1 <= rangeindex && rangeindex < len(tf.cases) && record != nil && base.tlogn == old(base.tlogn)
 //@   loop 1: invariant forall d int :: 0 <= d && d <= rangeindex ==> !old(bmatch.matched(tf.cases[d].matcher, record))
+
+// ==== configuration: verify => construct (C16), per case - the nested steps are verified recursively
+// (bsupport.VerifyTransformConfigs) and the match block by bmatch before anything is constructed; what `verify` accepts is what
+// `newCase` requires, and `newCase` is free of reachable aborts under it. (Config.NewTransform / VerifyConfig iterate over the
+// cases with a library map function and are not under contract.)
+//@ pure func caseok(c *CaseConfig, s base.LogSchema) bool := len(c.Then) > 0 && bsupport.tcsok(c.Then, s) && len(c.Match) > 0 && bmatch.mcfgok(c.Match, s)
+//@ func (c *CaseConfig) verify(schema base.LogSchema) error
+//@   property C16
+//@   requires c != nil && forall i int :: 0 <= i && i < len(c.Then) ==> c.Then[i].Value != nil
+//@   modifies nothing
+//@   ensures[accepted-case-is-constructible] result == nil ==> caseok(c, schema)
+//@ func (c *CaseConfig) newCase(schema base.LogSchema, parentLogger logger.Logger, customCounterRegistry base.LogCustomCounterRegistry) switchCase
+//@   property C16
+//@   requires c != nil && caseok(c, schema)
+//@   modifies nothing
+//@   ensures[one-step-per-configured-step] len(result.then) == len(c.Then)
+
